@@ -228,10 +228,15 @@ class Builder:
         elif spec.get("mapping_key"):
             key = tuple(T(c) for c in spec["mapping_key"])
             payload = iteration.RowMapping(key, {tuple(r[k] for k in key): r for r in rows})
+        elif spec.get("lazy_chain") is not None:
+            # rows delivered by a lazily chained iterable (e.g. several batches): re-iterable
+            k = spec["lazy_chain"]
+            payload = iteration.ChainRowIterable([iteration.RowSequence(rows[:k]), iteration.RowSequence(rows[k:])])
         else:
             payload = iteration.RowSequence(rows)
         self.leaf_payloads[key_name] = payload
-        if spec.get("ctor") == "raw":
+        if spec.get("ctor") == "raw" or spec.get("lazy_chain") is not None:
+            # (Engine.make_leaf wants a sized payload; the LeafRelation constructor takes any RowIterable)
             return R.LeafRelation(eng, frozenset(tags), payload, name=name, min_rows=mn, max_rows=mx)
         return eng.make_leaf(set(tags), payload, name=name)
 
